@@ -172,7 +172,9 @@ pub fn counted_looking_name(rng: &mut Rng) -> String {
         s.push(ch);
         first as usize
     };
-    // `rest` more bytes after the first byte
+    // `rest` more bytes after the first byte - or one fewer: the two conventions a reader might
+    // apply (count = bytes that follow / count = length of the whole name)
+    let rest = if rng.bool() { rest } else { rest - 1 };
     let already = s.len() - 1;
     for _ in 0..rest.saturating_sub(already) {
         s.push(*rng.pick(&['n', 'a', 'M', 'e', ' ', '7']));
